@@ -331,11 +331,18 @@ def enumerate_variant(run, model, exe, variant, scen_list, pairs, stats, env=Non
             # lost: libcoap servers do not deduplicate) is C07's subject, not an allocation defect.
             # Only the "delivered N times" verdict is excused, and only in runs that contain such a
             # lost datagram; every other check applies unchanged.
-            if any(RECEIVE_DROP.match(c) for c in chains):
-                lossy = [b for b in bad if b[0] == "wrong-result" and "delivered-" in b[1]]
-                if lossy:
-                    run.hist("loss_equivalent_runs", "duplicate delivery under message loss only")
-                    bad = [b for b in bad if b not in lossy]
+            drops = [bool(RECEIVE_DROP.match(c)) for c in chains]
+            if any(drops):
+                excused = [b for b in bad if b[0] == "wrong-result" and "delivered-" in b[1]]
+                if all(drops):
+                    # nothing but lost datagrams: what block-wise transfer / observe then hand to
+                    # the application is C09's / C11's question (they drive drop schedules); memory
+                    # safety, leaks, ownership and the canary are still judged here
+                    excused = [b for b in bad if b[0] in ("wrong-result", "silent")]
+                if excused:
+                    for b in excused:
+                        run.hist("loss_equivalent_runs", "%s %s: %s" % (sc, b[0], re.sub(r"\d+", "N", b[1])[:50]))
+                    bad = [b for b in bad if b not in excused]
                     if not bad:
                         continue
             nfail += 1
